@@ -35,19 +35,40 @@ func init() {
 		Rule: "case = generated endorsement request (image 64 KiB..2 MiB, technology subset, explicit / default / non-GCE VMSA count, product, machine-shape list with and without early accept incl. unknown shape names, SVN, family/image IDs, SVSM measurement, changelist/commit, timestamp) run through endorse.GoldenMeasurement and, with a bootstrapped authority, endorse.SignDoc. " +
 			"Every field of the message and of the re-parsed signed payload is compared with an independent recomputation: sha384(image); SNP table keys == requested set (own list of the 15 GCE counts) and each value == the snpref digest; TDX rows == per shape (ram, legacy[, legacy-early]) + default row with each MRTD == the tdxref value; SVN, IDs, policy, SVSM, provenance, certificate, bundle, timestamp. " +
 			"A request naming a configuration that cannot be measured (unknown shape, image without valid TDX or SNP metadata) must fail instead of producing placeholder entries. " +
-			"Appended families, judged by the same rules: sequences (one request value and one keys context through 3..6 calls with fields edited in place: same image under another configuration, caller scribbling over the previous result, failing call repaired and retried, signing fault then retry under a later timestamp); concurrent (4..8 independent requests, some unmeasurable, measured and signed at once, two rounds); values (8/16/32/64-bit limits of SVN and changelist, commit / SVSM lengths, nil vs empty, UUID spellings, 4..6 shapes, VMSA counts around 255, time zones and timestamp range ends); command (the shipped endorse command over files: SVN side files under both names and in non-canonical protobuf encodings, SVSM measurement files, flag spellings, explicit defaults, flags of a technology that is not added, image behind a symlink / on a pipe; the written endorsement is parsed back); layouts (SEV-SNP metadata with sections of every kind incl. secrets, CPUID and SVSM calling area spanning 1..16 pages, gaps, low/high regions, any order, reset block anywhere; library and command); ids (legal requested values that coincide with another representation's \"not set\": nil / all-ones UUID, the GCE family id spelled out, family == image, non-v4 UUIDs, respelled nil UUID, all-zero SVSM measurement / commit; one call, on a request an earlier call completed in place, cleared again afterwards, through the command's flags; always judged against a copy of the request taken before the call). " +
+			"Appended families, judged by the same rules: sequences (one request value and one keys context through 3..6 calls with fields edited in place: same image under another configuration, caller scribbling over the previous result, failing call repaired and retried, signing fault then retry under a later timestamp); concurrent (4..8 independent requests, some unmeasurable, measured and signed at once, two rounds); values (8/16/32/64-bit limits of SVN and changelist, commit / SVSM lengths, nil vs empty, UUID spellings, 4..6 shapes, VMSA counts around 255, time zones and timestamp range ends); command (the shipped endorse command over files: SVN side files under both names and in non-canonical protobuf encodings, SVSM measurement files, flag spellings, explicit defaults, flags of a technology that is not added, image behind a symlink / on a pipe; the written endorsement is parsed back); layouts (SEV-SNP metadata with sections of every kind incl. secrets, CPUID and SVSM calling area spanning 1..16 pages, gaps, low/high regions, any order, reset block anywhere; library and command); ids (legal requested values that coincide with another representation's \"not set\": nil / all-ones UUID, the GCE family id spelled out, family == image, non-v4 UUIDs, respelled nil UUID, all-zero SVSM measurement / commit; one call, on a request an earlier call completed in place, cleared again afterwards, through the command's flags; always judged against a copy of the request taken before the call); edges (SEV-SNP metadata sections of every kind at the ends and the sign boundary of the 32-bit address field: ending exactly at 4 GiB, crossing 4 GiB, one page below, starting at 0, ending at / starting at / crossing 2 GiB, 1..2048 pages; a refusal of a section inside the ROM's own range or beyond 4 GiB is counted, not judged); products (the product line over the whole enum of the dependency: Milan, Genoa, Turin, unset, beyond the enum, negative; one call, a call on a request value used for another product line before, the command's --snp_product; only Milan and Genoa must be answered, an answer for Turin must use its 52-bit VMSA GPA, an answer for a value naming no product line must be the launch measurement for one product line throughout). " +
 			"non-trivial = distinct (request shape, field group, outcome) cells",
 		Assumptions: []string{"snpref (C04) and tdxref (C05) are the independent measurement models; their agreement with the code on accepted images is itself checked by C04/C05",
-			"the default family id is the repository's documented GCE constant; a missing image id must come back as a random version-4 UUID"},
+			"the default family id is the repository's documented GCE constant; a missing image id must come back as a random version-4 UUID",
+			"guest-physical address width per AMD product line: Milan 48 bits, Genoa and Turin 52 bits (CPUID Fn8000_0008 EAX[7:0]); the property names no default product line"},
 		ShardsQuick: 8, ShardsThor: 16, TimeoutS: 900, TimeoutThor: 3600, Run: run,
 	})
 }
 
+// productName names the product line of a request; productWidths lists the guest-physical address widths the VMSA
+// GPA of its launch can have. Milan: 48. Genoa and Turin: 52 (CPUID Fn8000_0008 EAX[7:0] of families 19h/10h-1Fh and
+// 1Ah). Any other value (unset, beyond the enum) names no product line: the property promises no default product,
+// so a document produced for it is only required to be the launch measurement of the image for SOME product line,
+// the same one in every entry.
 func productName(p spb.SevProduct_SevProductName) string {
-	if p == spb.SevProduct_SEV_PRODUCT_GENOA {
+	switch p {
+	case spb.SevProduct_SEV_PRODUCT_MILAN:
+		return "Milan"
+	case spb.SevProduct_SEV_PRODUCT_GENOA:
 		return "Genoa"
+	case spb.SevProduct_SEV_PRODUCT_TURIN:
+		return "Turin"
 	}
-	return "Milan"
+	return fmt.Sprintf("no-product-line(%d)", int32(p))
+}
+
+func productWidths(p spb.SevProduct_SevProductName) []uint {
+	switch p {
+	case spb.SevProduct_SEV_PRODUCT_MILAN:
+		return []uint{48}
+	case spb.SevProduct_SEV_PRODUCT_GENOA, spb.SevProduct_SEV_PRODUCT_TURIN:
+		return []uint{52}
+	}
+	return []uint{48, 52}
 }
 
 type judge struct {
@@ -96,13 +117,22 @@ func (j *judge) checkGolden(entry string, g *epb.VMGoldenMeasurement, ec *endors
 			j.bad(entry, "snp-measured-for-malformed-image", "%v", cls)
 		} else {
 			prefix := snpref.Prefix(img, parsed.Secs)
-			bits := snpref.ProductBits(productName(req.Product))
+			widths := productWidths(req.Product)
+			bits := widths[0]
+			if len(widths) > 1 && len(got) > 0 {
+				// no product line named: the width the first entry was measured with must hold for all entries
+				for _, w := range widths {
+					if bytes.Equal(g.SevSnp.Measurements[got[0]], snpref.Finish(prefix, parsed.Reset, int(got[0]), w)) {
+						bits = w
+					}
+				}
+			}
 			seen := map[string]uint32{}
 			for _, k := range got {
 				m := g.SevSnp.Measurements[k]
 				ref := snpref.Finish(prefix, parsed.Reset, int(k), bits)
 				if !bytes.Equal(m, ref) {
-					j.bad(entry, "snp-measurement-differs-from-recomputation", "count %d (%s): %x, recomputed %x", k, productName(req.Product), m, ref)
+					j.bad(entry, "snp-measurement-differs-from-recomputation", "count %d (%s, VMSA GPA of %d bits): %x, recomputed %x", k, productName(req.Product), bits, m, ref)
 				}
 				if bytes.Equal(m, make([]byte, len(m))) {
 					j.bad(entry, "placeholder-entry", "SNP measurement for %d VMSAs is all zero / empty", k)
